@@ -24,10 +24,16 @@ type NodeNameSpace struct {
 }
 
 func (ns *NodeNameSpace) GetNextNodeID() uint32 {
-	if ns.nodeid_sequence < 100 {
-		ns.nodeid_sequence = 100
+	for {
+		cur := atomic.LoadUint32(&ns.nodeid_sequence)
+		next := cur + 1
+		if cur < 100 {
+			next = 101
+		}
+		if atomic.CompareAndSwapUint32(&ns.nodeid_sequence, cur, next) {
+			return next
+		}
 	}
-	return atomic.AddUint32(&(ns.nodeid_sequence), 1)
 }
 
 func NewNodeNameSpace(srv *Server, name string) *NodeNameSpace {
